@@ -14,7 +14,7 @@ import numpy as np
 
 import core
 
-PROOF_MODULES = ["UnytProofs.C08", "UnytProofs.C08Seq", "UnytProofs.C08Tab", "UnytProofs.C08Tab2", "UnytProofs.C08Tab3", "UnytProofs.C08Tab4", "UnytProofs.C08Tab5"]
+PROOF_MODULES = ["UnytProofs.C08", "UnytProofs.C08Seq", "UnytProofs.C08Reduce", "UnytProofs.C08Tab", "UnytProofs.C08Tab2", "UnytProofs.C08Tab3", "UnytProofs.C08Tab4", "UnytProofs.C08Tab5"]
 
 # --------------------------------------------------------------------------------------
 # the independent reference (also embedded verbatim in every replay file)
@@ -97,6 +97,37 @@ def t_check_additive(op, n0, xs0, n1, xs1, label, vs):
             return "%r [%s] %s %r [%s] returned %r [%s]; affine arithmetic gives %r [%s]" % (
                 x0, n0, op, x1, n1, float(v), label, float(want), label)
     return None
+
+def t_expect_reduce_initial(op, n, xs, ni, xi):
+    """(kind, kelvin) affine arithmetic requires of `q + a[0] + a[1] + ...` (op 'add') or
+    `q - a[0] - a[1] - ...` (op 'sub') with data xs [n] and start value xi [ni], or None (no claim)"""
+    ku, ki = t_kind(n), t_kind(ni)
+    tot = sum((t_dif(n, x) for x in xs), _F(0))
+    sgn = 1 if op == "add" else -1
+    if ku == "diff" and ki == "diff":
+        return "diff", t_dif(ni, xi) + sgn * tot
+    if ku == "diff" and ki == "point":
+        return "point", t_abs(ni, xi) + sgn * tot
+    if op == "add" and ku == "point" and ki == "diff" and len(xs) == 1:
+        return "point", t_abs(n, xs[0]) + t_dif(ni, xi)
+    if op == "sub" and ku == "point" and ki == "point" and len(xs) == 1:
+        return "diff", t_abs(ni, xi) - t_abs(n, xs[0])
+    return None
+
+def t_check_reduce_initial(op, n, xs, ni, xi, label, v):
+    e = t_expect_reduce_initial(op, n, xs, ni, xi)
+    if e is None:
+        return None
+    kind, kel = e
+    if t_kind(label) != kind:
+        return "a %s result is labelled with the %s unit %s (value %r)" % (kind, t_kind(label), label, float(v))
+    want = t_reading(kind, label, kel)
+    scale = abs(float(xi) * float(t_size(ni) / t_size(label))) + sum(abs(float(x) * float(t_size(n) / t_size(label))) for x in xs)
+    scale += (abs(float(t_abs(n, 0))) + abs(float(t_abs(ni, 0))) + abs(float(t_abs(label, 0)))) / float(t_size(label))
+    if not t_near(v, want, scale):
+        return "start value %r [%s] %s data %r [%s] returned %r [%s]; affine arithmetic gives %r [%s]" % (
+            xi, ni, op, xs, n, float(v), label, float(want), label)
+    return None
 '''
 
 _ref = {}
@@ -110,6 +141,7 @@ t_near = _ref["t_near"]
 t_reading = _ref["t_reading"]
 t_different_offset_scales = _ref["t_different_offset_scales"]
 t_check_additive = _ref["t_check_additive"]
+t_check_reduce_initial = _ref["t_check_reduce_initial"]
 
 BASES = ["K", "R", "degC", "degF", "delta_degC", "delta_degF"]
 ALT_SPELLINGS = {"°C": "degC", "°F": "degF", "degree_celsius": "degC", "celsius": "degC", "degree_fahrenheit": "degF",
@@ -676,6 +708,49 @@ def run(tier, seed):
                 ask(f"c08.seqcmp\t{side}\t{u0.wire}\t" + ",".join(str(f2b(x)) for x in xs0) + f"\t{seqwire}", ("seqcmp", side, u0, sus, xs0, ys, outcomes[side]))
     chk.extra["sequence_cases"] = nseq
 
+
+    # ---- reductions with a start value that carries units (`initial=`), all ordered pairs -------------
+    # q + a[0] + a[1] + ... / q - a[0] - ...: the reduction form of point +/- difference, difference + point,
+    # difference +/- difference and point - point; data of one and of two readings
+    RED_INIT = [("add", "np.add.reduce(a, initial=q)"), ("add", "np.sum(a, initial=q)"), ("add", "a.sum(initial=q)"),
+                ("sub", "np.subtract.reduce(a, initial=q)")]
+    for u in units:
+        for ui in units:
+            for n in (1, 2):
+                xs = readings(rng, n)
+                xi = readings(rng, 1)[0]
+                outcomes = {"add": {}, "sub": {}}
+                for op, expr in RED_INIT:
+                    a = unyt_array(xs, u.spelling)
+                    q = unyt_quantity(xi, ui.spelling)
+                    try:
+                        res = ("ok", eval(expr, {"np": np, "a": a, "q": q}))
+                    except Exception as e:  # noqa: BLE001
+                        res = ("err", core.exc_name(e))
+                    chk.case(("reduce-initial", expr, u.name, ui.name, n))
+                    chk.count(f"reduce-initial:{u.kind}-data,{ui.kind}-start")
+                    if res[0] == "ok":
+                        r = res[1]
+                        label = repr(getattr(r, "units", None))
+                        v = vals(r)[0]
+                        outcomes[op][expr] = ("ok", label, v)
+                        try:
+                            msg = t_check_reduce_initial(op, u.name, xs, ui.name, xi, label, v)
+                        except ValueError as e:
+                            msg = f"result labelled {label}: {e}"
+                        if msg:
+                            fam = "add.reduce" if op == "add" else "subtract.reduce"
+                            chk.fail(f"wrong-value|{fam}-initial|{u.shape}|{ui.shape}", f"{expr} with a = {xs} [{u.spelling}], q = {xi} [{ui.spelling}]: {msg}",
+                                     {"python": snippet(guarded(f"a = unyt_array({xs!r}, {u.spelling!r})\nq = unyt_quantity({xi!r}, {ui.spelling!r})") +
+                                                        f"try:\n    r = {expr}\nexcept Exception:\n    raise SystemExit(0)  # refused: nothing returned\n"
+                                                        f"m = t_check_reduce_initial({op!r}, {u.name!r}, {xs!r}, {ui.name!r}, {xi!r}, repr(r.units), float(np.asarray(r).ravel()[0]))\nassert m is None, m\n"),
+                                      "form": expr})
+                    else:
+                        outcomes[op][expr] = res
+                for op in ("add", "sub"):
+                    ask(f"c08.redinit\t{op}\t{u.wire}\t" + ",".join(str(f2b(x)) for x in xs) + f"\t{ui.wire}\t{f2b(xi)}",
+                        ("redinit", op, u, ui, xs, xi, outcomes[op]))
+
     # ---- correspondence: ask the model ---------------------------------------------------------
     try:
         replies = core.Model("drv_c08").ask([m[0] for m in model])
@@ -887,6 +962,21 @@ def compare(chk, line, exp, rep):
                 if PYCMP[pyop](p, q) != g:
                     chk.disagree("c08.seqcmp", f"{what} x={xs0} y={ys}: unyt {got}, model compares {ps} with {qs}")
                     break
+    elif kind == "redinit":
+        _, op, u, ui, xs, xi, outcomes = exp
+        for expr, oc in outcomes.items():
+            what = f"{expr} with a = {xs} [{u.name}], q = {xi} [{ui.name}]"
+            if oc[0] == "err":
+                if rep[0] != "err" or rep[1] != oc[1]:
+                    chk.disagree("c08.redinit", f"{what}: unyt raises {oc[1]}, model {rep}")
+                continue
+            _, label, v = oc
+            if rep[0] != "ok":
+                chk.disagree("c08.redinit", f"{what}: unyt returns {v} [{label}], model {rep}")
+                continue
+            mv = core.b2f(rep[2])
+            if rep[1].replace(":", "") != label or not fclose(mv, v, abs(v) + sum(abs(x) for x in xs) + 1e3):
+                chk.disagree("c08.redinit", f"{what}: unyt {v} [{label}], model {mv} [{rep[1]}]")
     elif kind == "conv":
         _, u, v, x, f, o, got, sc = exp
         if rep[0] != "ok" or got is None:
